@@ -17,6 +17,25 @@ THOROUGH = CONFIGS + [
 ]
 
 
+REFINE_QUICK = ('pc',)
+
+
+def refinement(check):
+    """design level: USim refines the abstract broadcast channel ChanAbs (TLC: every step of the detailed model is a
+    Send / Close / Register / Take / Leave of the abstract channel or leaves it alone; action properties HeadOnly,
+    Broadcast, OrderKept, ClosedForGood); Apalache proves the invariant of ChanAbs (the backlog of every consumer is
+    the gapless run of the last messages accepted) inductive"""
+    import core
+    for label, consts in (CONFIGS if check.tier == 'quick' else THOROUGH):
+        if check.tier == 'quick' and label not in REFINE_QUICK:
+            continue
+        check.model_check('refine_' + label, 'USimRef', 'Spec', consts, ['ChanInv'],
+                          properties=['ChanRefines1', 'ChanHead1', 'ChanBroadcast1', 'ChanOrder1', 'ChanClosed1'],
+                          coverage=False)
+    core.apalache_inductive(check, 'MC_ChanAbs', 'ChanAbs')
+
+
 def run(check):
+    refinement(check)
     usimrun.explore(check, OBS, CONFIGS if check.tier == 'quick' else THOROUGH, random=True,
                     invariants=('NoFault', 'NoForeignSignal', 'RunLive', 'CascadeShape', 'ChannelExact', 'ChannelConsumersDistinct'))
